@@ -28,6 +28,7 @@ def op_variants(tag):
 
 INITS = {
     "abs": {"k": None},
+    "num0": {"k": {"st": "New", "val": "5", "ver": 0}},      # a key written once: a re-created key is back at this version at once
     "num": {"k": {"st": "New", "val": "5", "ver": 1}},
     "str": {"k": {"st": "New", "val": "v0", "ver": 1}},
     "ok": {"k": {"st": "Ok", "val": "5", "ver": 1}},
@@ -42,6 +43,13 @@ def scenarios(tier):
         for i, j in itertools.combinations_with_replacement(range(len(A)), 2):
             scs.append(conc.Scenario("%s_%d_%d" % (iname, i, j), INITS[iname], {},
                                      {"t1": [A[i]], "t2": [B[j]]}))
+    # the key ceases to exist and comes back while another command is under way (a key that never reached the disk is
+    # dropped by remove, and the next write starts its versions again): every command against remove-then-write
+    back = [[B[6], B[0]], [B[6], {"op": "set", "k": "k", "v": "100"}], [B[6], B[4]], [B[6], B[1]]]
+    for iname in (["num", "num0"] if tier == "quick" else ["num", "num0", "ok"]):
+        for i in range(len(A)):
+            for j, prog in enumerate(back):
+                scs.append(conc.Scenario("%s_re_%d_%d" % (iname, i, j), INITS[iname], {}, {"t1": [A[i]], "t2": prog}))
     return scs
 
 
@@ -129,4 +137,7 @@ def run(tier, seed):
     res.assumptions = ["interleaving granularity = yield hooks before every Database.map / Watchers.map "
                        "lock acquisition; code between two hooks runs atomically",
                        "a removed key that still reports a version may refuse or accept an older version"]
+    # free-running rounds: real threads, no scheduler, no hook involved (lock regions without a yield point)
+    import stress
+    res.coverage.update(stress.run_part(res, wd, devs, ['inc', 'set', 'cas'], tier, seed))
     return res, known
